@@ -80,10 +80,12 @@ pub fn gen_clients(r: &mut Rng, n: usize, with_invalid: bool, max_reqs: usize) -
             };
             match r.below(100) {
                 0..=54 => {
-                    let size = match r.below(12) {
+                    let size = match r.below(14) {
                         0 => 300_000,
                         1 => 70_000,
                         2 => 600_000,
+                        // the empty file (published like any other content)
+                        3 => 0,
                         _ => 24 + r.below(200) as u32,
                     };
                     let declared = if with_invalid && r.below(5) == 0 {
